@@ -52,7 +52,9 @@ structure Cl where
   writer : WPc := .top
   reader : RPc := .decode
   starter : SPc := .waitReader
-  /-- Send calls that hold the read lock and have seen `drained = false` -/
+  /-- Send calls that wait for their turn (the one-slot `groupSem` of 058c6b1: one Send at a time goes on to the queue) -/
+  waiting : List Nat := []
+  /-- the Send call that has the turn, holds the read lock and has seen `drained = false` (at most one) -/
   locked : List Nat := []
   /-- every Send call so far -/
   accepted : List Nat := []
@@ -65,7 +67,10 @@ structure Cl where
 deriving Repr
 
 inductive Label
-  | sendBegin (id : Nat)        -- RLock; drained → answer with an error, else go on to the select
+  | sendBegin (id : Nat)        -- Send is called: it waits for its turn
+  | turnTake (id : Nat)         -- it is its turn; RLock; drained → answer with an error, else go on to the select
+  | turnQuit (id : Nat)         -- waiting for the turn: quit → answer with an error
+  | turnAbort (id : Nat)        -- waiting for the turn: the sender's own quit → answer with an error
   | sendEnq (id : Nat)          -- select: enqueued
   | sendQuit (id : Nat)         -- select: quit → answer with an error
   | sendAbort (id : Nat)        -- select: the sender's own quit (`req.abort`) → answer with an error
@@ -89,8 +94,16 @@ def answer (s : Cl) (id : Nat) (h : How) : Cl := { s with answered := s.answered
 def step (s : Cl) : Label → Option Cl
   | .sendBegin id =>
     if id ∈ s.accepted then none
-    else if s.drained then some (answer { s with accepted := id :: s.accepted } id .error)
-    else some { s with accepted := id :: s.accepted, locked := id :: s.locked }
+    else some { s with accepted := id :: s.accepted, waiting := id :: s.waiting }
+  | .turnTake id =>
+    if id ∈ s.waiting ∧ s.locked = [] then
+      (if s.drained then some (answer { s with waiting := s.waiting.erase id } id .error)
+       else some { s with waiting := s.waiting.erase id, locked := [id] })
+    else none
+  | .turnQuit id =>
+    if id ∈ s.waiting ∧ s.quit then some (answer { s with waiting := s.waiting.erase id } id .error) else none
+  | .turnAbort id =>
+    if id ∈ s.waiting ∧ id ∈ s.abortable then some (answer { s with waiting := s.waiting.erase id } id .error) else none
   | .sendEnq id =>
     if id ∈ s.locked ∧ s.pending.length < s.cap then
       some { s with locked := s.locked.erase id, pending := s.pending ++ [id] }
@@ -170,7 +183,7 @@ def inWriter (s : Cl) : List Nat :=
   | _ => []
 
 /-- where requests that are not yet completed on this connection are -/
-def places (s : Cl) : List Nat := s.locked ++ s.pending ++ inWriter s ++ s.processing
+def places (s : Cl) : List Nat := s.waiting ++ s.locked ++ s.pending ++ inWriter s ++ s.processing
 
 
 /-! ### split requests (MGET / MSET / DEL …): `request.go`, onChildDone
